@@ -29,6 +29,8 @@ ALL_FEATURES = [
     "alloptions", "shape_change", "never_keys", "partial_section_preset",
     "coalesce_value_fail",  # coalesce members that can fail because of a *value* (domain / switch)
     "abstract", "selector_ds", "step_params", "pipelines",
+    "callback_params",  # callbacks that are pipeline steps reading an option of their own
+    "iter",  # tuples built with labrea.Iter(...).apply(tuple) (lazy members)
 ]
 
 
@@ -318,13 +320,21 @@ class SpecGen:
         return self.add({"k": "list", "items": [self.pick_any() for _ in range(self.rng.randint(1, 3))]})
 
     def g_tuple(self):
-        return self.add({"k": "tuple", "items": [self.pick_any() for _ in range(self.rng.randint(1, 3))]})
+        node = {"k": "tuple", "items": [self.pick_any() for _ in range(self.rng.randint(1, 3))]}
+        if self.cfg.get("iter") and self.rng.random() < 0.4:
+            # labrea.Iter: the members are evaluated lazily, while the consumer (tuple()) iterates
+            node["via"] = "iter"
+        return self.add(node)
 
     def g_dsclass(self):
         """A @datasetclass: annotated members, un-annotated class attributes and members inherited from a plain mixin."""
         r = self.rng
         names = r.sample(["fa", "fb", "fc", "fd"], r.randint(1, 3))
         node = {"k": "dsclass", "name": f"DC{len(self.nodes)}", "fields": [], "plain": [], "mixin": []}
+        bases = [n["id"] for n in self.nodes if n["k"] == "dsclass"]
+        if bases and r.random() < 0.5:
+            # derives from another dataset class; members of the same name OVERRIDE the inherited ones
+            node["base"] = r.choice(bases)
         for nm in names:
             where = r.choices(["fields", "plain", "mixin"], [5, 2, 2])[0]
             node[where].append([nm, self.pick_any()])
@@ -489,6 +499,10 @@ class SpecGen:
             node["default_options"] = self.preset()
         if cfg["callbacks"] and r.random() < 0.3 and not selector:
             node["callback"] = True
+            if cfg.get("callback_params") and r.random() < 0.5:
+                # a callback that is an Evaluatable itself: a pipeline step with an option-valued parameter
+                node["callback_opt"] = self.selector_leaf()
+                self.unused.remove(node["callback_opt"])
         if cfg["effects"] and r.random() < 0.3:
             node["effects"] = r.randint(1, 2)
         if cfg.get("effect_params") and r.random() < 0.25:
@@ -595,6 +609,8 @@ def children(n):
         out.extend(v for _, v in n["items"])
     elif k == "dsclass":
         out.extend(v for part in ("fields", "plain", "mixin") for _, v in n[part])
+        if n.get("base"):
+            out.append(n["base"])
     elif k == "map":
         out.append(n["target"])
         out.extend(n["iterables"].values())
@@ -605,6 +621,8 @@ def children(n):
     elif k == "dataset":
         out.extend(n.get("args", {}).values())
         out.extend(n.get("effects_opt", []))
+        if n.get("callback_opt"):
+            out.append(n["callback_opt"])
         if isinstance(n.get("dispatch"), dict):
             out.append(n["dispatch"]["n"])
         for _, impl in n.get("overloads", []):
